@@ -206,3 +206,9 @@ def DestabSel(gs, obs, r, N):
 def Xor(a, b):
     # string part of the product of two Pauli strings (pointwise sum mod 2), total
     return [(a[c] + b[c]) % 2 for c in range(len(a))]
+
+
+@spec('int1', 'int2', 'int', 'int1', 'int')
+def SelAcq(sel, G, n, x, N):
+    # sum over the selected rows i < n of the symplectic form of x with row i
+    return 0 if n <= 0 else SelAcq(sel, G, n - 1, x, N) + (AcqSum(x, G[n - 1], N) if sel[n - 1] != 0 else 0)
